@@ -9,6 +9,7 @@ Lean tokenizer, Newick statement parser, PHYLIP/FASTA line readers and the NEXUS
 import io
 import re
 import sys
+import time
 
 import treeutil as tu
 from common import time_limit, Timeout, hex6
@@ -16,7 +17,7 @@ from common import time_limit, Timeout, hex6
 ID = "C20"
 GEN_DEPENDS = ["Tables"]
 RULE = ("grammar-generated valid Newick/NEXUS/PHYLIP/FASTA documents (every supported block structure: TAXA, CHARACTERS/DATA "
-        "sequential+interleaved, TREES with/without TRANSLATE/LINK/TITLE, SETS/CHARSET, unknown blocks) x {every prefix, single "
+        "sequential+interleaved, INTERLEAVE x MATCHCHAR matrices with every single-character edit of the matrix body, several TAXA blocks, TREES with/without TRANSLATE/LINK/TITLE, SETS/CHARSET, unknown blocks) x {every prefix, single "
         "and double edits (delete, insert, replace, drop span, duplicate span, drop word, insert keyword)}, random strings and "
         "keyword soups over each format's token alphabet, deep nesting / long comment runs; thorough adds every string up to a "
         "length bound over a small alphabet per format and every short NEXUS keyword sequence; non-trivial = the text is not a "
@@ -29,16 +30,16 @@ MODELLED_NOT_VERIFIED = [
     "C20: NeXML is not among the four readers of the statement; comment-metadata regexes, CHARSET positions beyond termination, continuous "
     "matrices and state-alphabet construction are outside the model (the oracle still judges every read of them)",
     "C20: the interpreter recursion limit is a runtime resource the model cannot exhibit (Newick nesting beyond it: known finding)",
-    "C20: texts with a quoted single structural character ('(' ')' ',' ':' ';') are judged by the oracle but not compared with the model, and blank "
-    "(anonymous, childless, length-less) Newick nodes are dropped from both sides of the tree comparison: both are the subject of C02, not of this statement",
+    "C20: reads with reader options (preserve_underscores, suppress_*_taxa, rooting, store_tree_weights, terminating_semicolon_required, ...) "
+    "are judged by the oracle only; the model is of the default options",
 ]
-EXPLANATION = ("Theorems (Props/C20.lean, about the definitions drv_c20 runs; all loops are total functions without fuel): tokenizer_progress "
-               "(a token always costs input), token_count_bounded, newick_statement_progress + newick_never_internal (tree_iter cannot spin or fail "
-               "internally on any text), newick_balanced (an accepted statement is parenthesis-balanced and ends in ';'), ok_dims (an accepted PHYLIP "
-               "matrix has exactly the declared rows x columns), reader_loops_total (every `iter` loop with a consuming body terminates without the "
-               "internal marker and never gives input back), eof_is_parse_error_partial: skip_to_semicolon/_consume_to_end_of_block stop on every "
-               "prefix - _partial because the bodies of the remaining NEXUS block/statement loops are not yet shown `GoodBody` in Lean; for them the "
-               "driver's verdict (ok/parse/internal) is compared with the implementation on every generated input instead.")
+EXPLANATION = ("Theorems (Props/C20.lean, about the definitions drv_c20 runs; every loop is a total function without fuel): tokenizer_progress, "
+               "token_count_bounded; newick_statement_progress + newick_never_internal (the statement loop consumes input, so tree_iter terminates); "
+               "newick_balanced (an accepted statement's structural tokens - a quoted '(' is a label - are balanced and end in ';'); ok_dims (the "
+               "declared-versus-found guards of the PHYLIP reader); reader_loop_rule + nexus_never_internal: for every text, readNexus - all block "
+               "and statement loops - returns a result or a parse error, the no-progress marker of the model's loops is unreachable (termination "
+               "clause, unconditional).  The 'no AttributeError/IndexError' clause is evaluated on the implementation by the oracle; the model has "
+               "no None tokens by construction.")
 
 ROUTES = {
     "newick": ["treelist", "treelist", "treelist", "tree", "dataset"],
@@ -266,6 +267,72 @@ def gen_nexus(rng, structure=None):
     return {"schema": "nexus", "text": text, "kwargs": {}}
 
 
+def gen_nexus_multi(rng):
+    """several TAXA blocks with titles; CHARACTERS / TREES blocks linked to one of them (Mesquite style)"""
+    sizes = {"tA": rng.randint(1, 4), "tB": rng.randint(1, 4)}
+    labs = {"tA": ["A%d" % i for i in range(sizes["tA"])], "tB": [label(rng, i) for i in range(sizes["tB"])]}
+    L = ["#NEXUS"]
+    for t in ("tA", "tB"):
+        L.append("BEGIN TAXA;\n  TITLE %s;\n  DIMENSIONS NTAX=%d;\n  TAXLABELS %s;\nEND;" % (t, sizes[t], " ".join(labs[t])))
+    for k in range(rng.randint(1, 4)):
+        t = rng.choice(["tA", "tB"])
+        link = "  LINK TAXA = %s;" % (t if rng.random() < 0.8 else t.upper())
+        if rng.random() < 0.55:
+            nchar = rng.randint(1, 5)
+            dims = "  DIMENSIONS %sNCHAR=%d;" % (("NTAX=%d " % sizes[t]) if rng.random() < 0.4 else "", nchar)
+            interleave = rng.random() < 0.3
+            L.append("BEGIN CHARACTERS;\n  TITLE c%d;\n%s\n%s\n  FORMAT DATATYPE=DNA%s;\n  MATRIX\n%s\n  ;\nEND;" % (
+                k, link, dims, " INTERLEAVE" if interleave else "", gen_matrix_rows(rng, labs[t], nchar, "DNA", interleave, False)))
+        else:
+            trees = []
+            for j in range(rng.randint(0, 2)):
+                n = rng.randint(1, sizes[t])
+                trees.append("  TREE t%d = %s;" % (j, newick_of(rng, tu.rand_shape(rng, n, p_poly=0.3, p_unary=0.05), rng.sample(labs[t], n),
+                                                                lengths=rng.random() < 0.5)))
+            L.append("BEGIN TREES;\n  TITLE r%d;\n%s\n%s\nEND;" % (k, link, "\n".join(trees)))
+    if rng.random() < 0.3:
+        L.append("BEGIN SETS;\n  LINK CHARACTERS = c0;\n  CHARSET s = 1;\nEND;")
+    return {"schema": "nexus", "text": "\n".join(L) + "\n", "kwargs": {}}
+
+
+def gen_nexus_interleave_match(rng):
+    """an INTERLEAVE matrix that uses MATCHCHAR, in 2-3 sections; returns the document and the span of the MATRIX body"""
+    n = rng.randint(2, 4)
+    labs = [rng.choice(["a%d", "T%d", "sp_%d"]) % i for i in range(n)]
+    datatype = rng.choice(["DNA", "DNA", "RNA", "STANDARD"])
+    syms = {"DNA": "ACGT", "RNA": "ACGU", "STANDARD": "01"}[datatype]
+    mc = rng.choice([".", ".", ".", "!"])
+    widths = [rng.randint(1, 4) for _ in range(rng.randint(2, 3))]
+    nchar = sum(widths)
+    first = [rng.choice(syms) for _ in range(nchar)]
+    rows = [first] + [[(mc if rng.random() < 0.5 else rng.choice(syms + "-?")) for _ in range(nchar)] for _ in range(n - 1)]
+    head = "#NEXUS\nBEGIN %s;\n  DIMENSIONS NTAX=%d NCHAR=%d;\n  FORMAT DATATYPE=%s%s %s MATCHCHAR=%s%s;\n  MATRIX\n" % (
+        rng.choice(["DATA", "data", "CHARACTERS"]), n, nchar, datatype, ' SYMBOLS="01"' if datatype == "STANDARD" and rng.random() < 0.5 else "",
+        rng.choice(["INTERLEAVE", "interleave=yes", "INTERLEAVE"]), mc, rng.choice(["", " GAP=- MISSING=?"]))
+    body, col = [], 0
+    for w in widths:
+        for l, r in zip(labs, rows):
+            body.append("    %s%s%s\n" % (l, rng.choice([" ", "  "]), "".join(r[col:col + w])))
+        body.append("\n")
+        col += w
+    body = "".join(body)
+    tail = "  ;\nEND;\n" + rng.choice(["", "BEGIN TREES;\n  TREE t = (%s);\nEND;\n" % ",".join(labs)])
+    return {"schema": "nexus", "text": head + body + tail, "kwargs": {}}, (len(head), len(head) + len(body)), mc
+
+
+def matrix_body_edits(doc, span, mc):
+    """every single-character edit of the MATRIX body that moves, removes or introduces a cell: delete, insert or
+    substitute the match character / a state symbol / a separator at each position"""
+    text = doc["text"]
+    a, b = span
+    for i in range(a, b):
+        yield text[:i] + text[i + 1:]
+        for ch in (mc, "A", "0", " ", "\n", ";"):
+            yield text[:i] + ch + text[i:]
+            if text[i] != ch:
+                yield text[:i] + ch + text[i + 1:]
+
+
 def gen_phylip(rng):
     n = rng.randint(1, 5)
     nchar = rng.randint(1, 9)
@@ -323,6 +390,12 @@ def gen_fasta(rng):
     return {"schema": "fasta", "text": text, "kwargs": {}}
 
 
+NEWICK_OPTIONS = [
+    {"preserve_underscores": True}, {"suppress_internal_node_taxa": False}, {"suppress_leaf_node_taxa": True},
+    {"suppress_edge_lengths": True}, {"rooting": "force-rooted"}, {"rooting": "default-unrooted"}, {"store_tree_weights": True},
+    {"extract_comment_metadata": False}, {"terminating_semicolon_required": False},
+    {"suppress_internal_node_taxa": False, "suppress_leaf_node_taxa": True, "preserve_underscores": True},
+]
 GENS = {"newick": gen_newick, "nexus": gen_nexus, "phylip": gen_phylip, "fasta": gen_fasta}
 
 
@@ -431,6 +504,17 @@ NO_DATA = re.compile(r"^No (trees|character data) (in|available)")
 TYPE_MISMATCH = re.compile(r"^Data source \(at offset \d+\) is of type '\w+', but current CharacterMatrix is of type 'dna'")
 
 
+def raised_outside_readers(e):
+    """no frame of dendropy/dataio is on the traceback's innermost part: the reader had already returned"""
+    tb = e.__traceback__
+    frames = []
+    while tb is not None:
+        frames.append(tb.tb_frame.f_code.co_filename.replace("\\", "/"))
+        tb = tb.tb_next
+    return bool(frames) and "/dataio/" not in frames[-1] and not any(
+        f.endswith(("reader.py", "tokenizer.py", "nexusprocessing.py")) for f in frames[-1:])
+
+
 def run_impl(dendropy, case, limit):
     """returns (klass, detail, obj): klass in ok | parse | nodata | hang | internal"""
     from dendropy.utility import error
@@ -447,10 +531,11 @@ def run_impl(dendropy, case, limit):
             return "internal", "%s while formatting %s" % (type(e2).__name__, type(e).__name__), e
         return "parse", type(e).__name__ + ": " + msg[:160], e
     except ValueError as e:
-        if type(e) is ValueError and NO_DATA.match(str(e)) and case["route"] in ("tree", "dnamatrix"):
-            return "nodata", str(e), e
-        if type(e) is ValueError and TYPE_MISMATCH.match(str(e)) and case["route"] == "dnamatrix":
-            # the caller asked for a DNA matrix and the document declares another data type: no data of the requested kind
+        # the documented ValueError for a source without data of the requested kind (no trees / no character data / a matrix
+        # of another data type than the class asked for) is raised by the object layer after the reader has returned:
+        # recognised by where it is raised (no reader frame on the stack), or by its documented wording
+        if type(e) is ValueError and case["route"] in ("tree", "dnamatrix") and (
+                raised_outside_readers(e) or NO_DATA.match(str(e)) or TYPE_MISMATCH.match(str(e))):
             return "nodata", str(e), e
         return "internal", "%s: %s" % (type(e).__name__, str(e)[:160]), e
     except Exception as e:
@@ -459,19 +544,28 @@ def run_impl(dendropy, case, limit):
 
 # ====================================================================== the oracle (statement evaluated on the outcome)
 def strip_comments_and_quotes(text):
-    out, depth, i, n = [], 0, 0, len(text)
+    """the oracle's own reading of NEXUS lexical structure: comments removed, quoted tokens replaced by ` q ` (or by their
+    content when it is a number).  A quote character opens a quoted token only at the start of a token; inside an
+    unquoted token it is an ordinary character."""
+    out, i, n = [], 0, len(text)
+    at_start = True           # at the start of a token
     while i < n:
         c = text[i]
-        if depth:
-            if c == "[":
-                depth += 1
-            elif c == "]":
-                depth -= 1
-            i += 1
-        elif c == "[":
-            depth = 1
-            i += 1
-        elif c == "'":
+        if c == "[":
+            depth = 0
+            while i < n:
+                if text[i] == "[":
+                    depth += 1
+                elif text[i] == "]":
+                    depth -= 1
+                    if depth <= 0:
+                        i += 1
+                        break
+                i += 1
+            at_start = False if not at_start else False
+            # a comment does not end the token it is in; a following quote character is ordinary
+            continue
+        if c == "'" and at_start:
             j = i + 1
             while j < n:
                 if text[j] == "'":
@@ -480,11 +574,14 @@ def strip_comments_and_quotes(text):
                         continue
                     break
                 j += 1
-            out.append(" q ")
+            inner = text[i + 1:j]
+            out.append(" " + inner + " " if inner.isdigit() else " q ")
             i = j + 1
-        else:
-            out.append(c)
-            i += 1
+            at_start = True
+            continue
+        out.append(c)
+        at_start = c in " \t\n\r{}(),;:=\\\""
+        i += 1
     return "".join(out)
 
 
@@ -502,6 +599,55 @@ def declared_dims(case):
         return {"ntax": [int(x) for x in re.findall(r"(?i)\bntax\s*=\s*(\d+)", t)],
                 "nchar": [int(x) for x in re.findall(r"(?i)\bnchar\s*=\s*(\d+)", t)]}
     return None
+
+
+def nexus_matrix_blocks(text):
+    """the oracle's own reading of the declared dimensions, block by block: for every CHARACTERS/DATA block that has a
+    MATRIX statement, the NCHAR in force there (NCHAR persists from earlier blocks) and the NTAX of the block's own
+    DIMENSIONS statements.  None when the text is too irregular to be sure (then only the document-wide check applies)."""
+    t = strip_comments_and_quotes(text)
+    out = []
+    nchar = None
+    pieces = re.split(r"(?i)\bbegin\s+(\w+)\s*;", t)
+    # pieces: [head, name1, body1, name2, body2, ...]
+    if re.search(r"(?i)\bnchar\b", pieces[0]):
+        return None
+    for name, body in zip(pieces[1::2], pieces[2::2]):
+        if name.upper() not in ("CHARACTERS", "DATA"):
+            if re.search(r"(?i)\bnchar\b", body):
+                return None
+            continue
+        m = re.search(r"(?i)\bmatrix\b", body)
+        head = body if m is None else body[:m.start()]
+        if len(re.findall(r"(?i)\bmatrix\b", body)) > 1 or re.search(r"(?i)\bbegin\b", body):
+            return None
+        ntax = None
+        stmts = head.split(";")
+        if m is not None:
+            if stmts[-1].strip():
+                return None          # MATRIX does not start a statement of its own
+            stmts = stmts[:-1]
+        for st in stmts:
+            words = st.split()
+            if not words:
+                continue
+            first = words[0].upper()
+            if first not in ("TITLE", "LINK", "DIMENSIONS", "FORMAT", "END", "ENDBLOCK"):
+                return None
+            if first != "DIMENSIONS":
+                if re.search(r"(?i)\b(dimensions|ntax|nchar)\b", st):
+                    return None
+                continue
+            if not re.fullmatch(r"(?is)\s*dimensions(\s+(newtaxa|(ntax|nchar)\s*=\s*\d+))*\s*", st):
+                return None
+            for k, v in re.findall(r"(?i)\b(ntax|nchar)\s*=\s*(\d+)", st):
+                if k.upper() == "NCHAR":
+                    nchar = int(v)
+                else:
+                    ntax = int(v)
+        if m is not None:
+            out.append({"nchar": nchar, "ntax": ntax})
+    return out
 
 
 def tree_problems(dendropy, tree, tns):
@@ -532,10 +678,9 @@ def matrix_problems(dendropy, cm, case):
     probs = namespace_problems(cm.taxon_namespace)
     members = set(id(t) for t in cm.taxon_namespace)
     lens = []
-    for taxon in cm:
+    for taxon, seq in list(cm._taxon_sequence_map.items()):     # every stored row, also one keyed by a foreign taxon
         if id(taxon) not in members:
             probs.append("row taxon outside the matrix's namespace")
-        seq = cm[taxon]
         lens.append(len(seq))
         for v in seq:
             if not isinstance(v, (dendropy.datamodel.charstatemodel.StateIdentity, float, int)):
@@ -551,11 +696,19 @@ def matrix_problems(dendropy, cm, case):
             if any(x != dims["nchar"][0] for x in lens):
                 probs.append("row lengths %s, %d columns declared" % (lens, dims["nchar"][0]))
     elif case["schema"] == "nexus":
+        own = case.get("_block_dims")
+        if own is not None:
+            # this matrix's own block: NCHAR in force at its MATRIX statement, NTAX of its own DIMENSIONS
+            if lens and own["nchar"] is not None and any(x != own["nchar"] for x in lens):
+                probs.append("row lengths %s, declared NCHAR %d in this block" % (lens, own["nchar"]))
+            if own["ntax"] is not None and len(lens) > own["ntax"]:
+                probs.append("%d rows returned, declared NTAX %d in this block" % (len(lens), own["ntax"]))
         if lens and dims["nchar"] and any(x not in dims["nchar"] for x in lens):
             probs.append("row lengths %s, declared NCHAR %s" % (lens, sorted(set(dims["nchar"]))))
         if lens and len(set(lens)) > 1:
             probs.append("rows of unequal length %s" % lens)
-        if lens and dims["ntax"] and len(lens) > max(dims["ntax"]):
+        # document-wide fallback: only meaningful when there is a single taxon namespace the NTAX values can refer to
+        if own is None and len(re.findall(r"(?i)\bbegin\s+taxa\b", case["text"])) <= 1 and lens and dims["ntax"] and len(lens) > max(dims["ntax"]):
             probs.append("%d rows returned, declared NTAX %s" % (len(lens), sorted(set(dims["ntax"]))))
     return sorted(set(probs)), lens
 
@@ -571,8 +724,12 @@ def result_problems(dendropy, obj, case):
             for t in tl:
                 probs += tree_problems(dendropy, t, tl.taxon_namespace)
                 summary["trees"].append(t)
-        for cm in obj.char_matrices:
-            p, lens = matrix_problems(dendropy, cm, case)
+        blocks = nexus_matrix_blocks(case["text"]) if case["schema"] == "nexus" else None
+        for k, cm in enumerate(obj.char_matrices):
+            c2 = case
+            if blocks is not None and len(blocks) == len(obj.char_matrices):
+                c2 = dict(case, _block_dims=blocks[k])
+            p, lens = matrix_problems(dendropy, cm, c2)
             probs += p
             summary["rows"].append(lens)
     elif isinstance(obj, dendropy.TreeList):
@@ -605,7 +762,12 @@ def judge(ctx, dendropy, case, st, complete_valid=False):
     """run one read, evaluate the statement on its outcome, queue the comparison with the model"""
     klass, detail, obj = run_impl(dendropy, case, 0.5)
     if klass == "hang":
-        klass, detail, obj = run_impl(dendropy, case, 3.0)   # confirm with a generous limit (a GC pause is not a hang)
+        # confirm with a generous limit, and require that the time was spent computing (a paused machine is not a hang)
+        for _ in range(3):
+            c0 = time.process_time()
+            klass, detail, obj = run_impl(dendropy, case, 3.0)
+            if klass != "hang" or time.process_time() - c0 > 1.5:
+                break   # confirm with a generous limit (a GC pause is not a hang)
     nontrivial = (not complete_valid) or klass != "ok"
     ctx.case([case["schema"], case["route"], case["text"], sorted(case["kwargs"].items())], nontrivial,
              sample={"schema": case["schema"], "origin": case["origin"], "text": case["text"][:120], "outcome": klass},
@@ -701,14 +863,9 @@ def queue_model(ctx, dendropy, case, klass, summary, st):
     schema = case["schema"]
     if not ascii_ok(case["text"]):
         return
-    if schema in ("newick", "nexus") and QUOTED_PUNCT.search(case["text"]):
-        # whether a *quoted* structural character is a label or punctuation is C02's subject (labels survive a round
-        # trip) and not mentioned by this property: the oracle judges these reads, the model is not compared on them
-        ctx.count("model_not_compared:quoted-punctuation")
-        return
     if schema == "newick" and not case["kwargs"]:
         if klass == "ok":
-            got = "ok %d %s" % (len(summary["trees"]), " ".join(BLANK.sub("", canon_tree(t)) for t in summary["trees"]))
+            got = "ok %d %s" % (len(summary["trees"]), " ".join(canon_tree(t) for t in summary["trees"]))
         elif klass == "parse":
             got = "parse"
         elif klass == "nodata":
@@ -795,8 +952,7 @@ def judge_tokens(ctx, dendropy, text, pu, st):
 def normalise_model(op, m):
     m = m.strip()
     if op == "newick" and m.startswith("ok"):
-        # anonymous childless nodes without length ("blank" nodes of `(,a)`, `(a,)`) are C02's subject: dropped on both sides
-        return BLANK.sub("", canon_model_trees(m)).strip()
+        return canon_model_trees(m).strip()
     return m
 
 
@@ -906,9 +1062,21 @@ def run(ctx):
             doc = GENS[schema](rng)
             if schema == "nexus" and r < len(NEXUS_STRUCTURES) and (thorough or r % 2 == 0):
                 doc = gen_nexus(rng, NEXUS_STRUCTURES[r])     # every supported block structure is visited
+            elif schema == "nexus" and r % 3 == 1:
+                doc = gen_nexus_multi(rng)                    # several TAXA blocks, TITLE / LINK resolution
+            elif schema == "newick" and r % 4 == 3:
+                doc["kwargs"] = dict(rng.choice(NEWICK_OPTIONS))   # reader options: judged by the oracle only
             heavy = schema == "nexus"
             corruptions_of(ctx, dendropy, doc, st, n_edits=ctx.pick(60 if heavy else 25, 150), n_double=ctx.pick(25 if heavy else 10, 80),
                            all_prefixes=True)
+            if schema == "nexus" and (thorough or r % 2 == 0):
+                # INTERLEAVE x MATCHCHAR: every truncation and every single-character edit of the matrix body
+                mdoc, span, mc = gen_nexus_interleave_match(rng)
+                corruptions_of(ctx, dendropy, mdoc, st, n_edits=10, n_double=10, all_prefixes=True)
+                for k, t in enumerate(matrix_body_edits(mdoc, span, mc)):
+                    if ctx.out_of_time() or st.hangs > MAX_HANGS:
+                        break
+                    judge(ctx, dendropy, make_case("nexus", t, {}, ROUTES["nexus"][k % 5 if k % 7 == 0 else 0], "matrixedit"), st)
             for _ in range(ctx.pick(25, 60)):
                 judge(ctx, dendropy, make_case(schema, random_string(rng, schema), {}, rng.choice(ROUTES[schema]), "random"), st)
             for _ in range(ctx.pick(10, 30)):
